@@ -91,6 +91,7 @@ def cases(rng, tier):
         yield {"op": "C20.wrap", "tag": "pystmt", "line": rand_py_stmt(rng), "level": rng.randint(0, 4),
                "width": rng.choice([20, 30, 40, 60, 80]), "lang": "python"}
     yield from emit_cases(rng, tier)
+    yield from py_emit_cases(tier)
 
 
 def emit_cases(rng, tier):
@@ -108,6 +109,27 @@ def emit_cases(rng, tier):
             body = body + " ! trailing comment"
         yield {"op": None, "tag": "fortran-emit", "line": " " * rng.randint(0, 8) + body, "lang": "fortran-emit",
                "level": 0, "width": 80}
+
+
+def py_emit_cases(tier):
+    """whole generated Python modules (the per-line emission path CodeGenerator._emit, incl. the re-indentation of the
+    phase functions inside the class): statements whose text length is swept across the wrapping threshold"""
+    for L in range(1, 70 if tier == "quick" else 110):
+        yield {"op": None, "tag": "python-emit", "lang": "python-emit", "L": L, "line": "", "level": 0, "width": 80}
+
+
+def python_module_lines(L):
+    from dagrt.codegen.python import CodeGenerator
+    from dagrt.language import CodeBuilder, DAGCode
+    name = "v" + "a" * L
+    with CodeBuilder("main") as cb:
+        cb.assign(name, "<state>y + <dt> * 3")
+        cb.assign("<state>y", f"{name} + {name} * <dt> + <t>")
+        with cb.if_(f"{name} > <dt> + <t> + 12345"):
+            cb.assign("<state>y", f"{name} - {name} * <dt> - <t> - 1")
+        cb.yield_state("<state>y", "y", "<t>", "final")
+    code = DAGCode.from_phases_list([cb.as_execution_phase("main")], "main")
+    return CodeGenerator("Method")(code).split("\n")
 
 
 _gen = {}
@@ -140,6 +162,8 @@ def wrapper(lang):
 
 
 def impl(case):
+    if case["lang"] == "python-emit":
+        return {"ok": python_module_lines(case["L"])}
     if case["lang"] == "fortran-emit":
         try:
             return {"ok": fortran_get_code(case["line"])}
@@ -182,6 +206,26 @@ def ref_tokens(line, lang):
 
 def oracle(case, out):
     lang = case["lang"]
+    if lang == "python-emit":
+        lines = out.get("ok", [])
+        # the bodies of the phase functions: what _emit produces line by line (docstrings and templates are fixed text)
+        inside = False
+        for k, ln in enumerate(lines):
+            if ln.lstrip().startswith("def "):
+                inside = ln.lstrip().startswith("def phase_")
+                continue
+            if not inside:
+                continue
+            body = ln[:-1] if ln.endswith("\\") else ln
+            toks = ref_tokens(body, "python")
+            if toks is not None and len(toks) >= 2 and len(ln) > 80 and not body.lstrip().startswith(("#", '"', "'")):
+                return {"what": f"line {k} of the generated module holds {len(toks)} tokens and is {len(ln)} > 80 columns wide: {ln!r}",
+                        "sig": "emit-width"}
+        try:
+            ast.parse("\n".join(lines))
+        except SyntaxError as e:
+            return {"what": f"the generated module does not parse: {e}", "sig": "emit-syntax"}
+        return None
     if lang == "fortran-emit":
         line = case["line"]
         if line.lstrip(" ").startswith("!"):
